@@ -163,6 +163,7 @@ class C22(Check):
     # ------------------------------------------------------------------ main
 
     def run_case(self, case):
+        C.prepare_inprocess()
         out = Outcome()
         cmd = case["cmd"]
         if case.get("usage") in USAGE_KINDS:
